@@ -53,11 +53,16 @@ def build_overlays(scratch, harnesses):
         gen_files = []
         for g in gen:
             name = os.path.basename(g)[4:]
+            path = os.path.join(scratch, name)
             if name == "abi__c13_gen.rs":
-                path = os.path.join(scratch, name)
                 info = gen_c13.generate(path, scratch)
                 registry.GEN_INFO["c13"] = info
                 gen_files.append(path)
+            elif name.endswith("__koff.rs"):
+                registry.GEN_INFO["kernel_offsets"] = gen_c13.generate_koff(path, scratch)
+                gen_files.append(path)
+            else:
+                raise SystemExit("unknown generated file " + name)
         base = "real" if flavour.startswith("real") else "model"
         overlay.build(dest, base, [os.path.join(VERIF, f) for f in flist] + gen_files, extra)
         ovs[flavour] = dest
@@ -151,7 +156,7 @@ def main():
                 results.append(r)
                 st = r["stats"]
                 log("  %-60s %-12s %6.0fs  vars=%s steps=%s %s" % (
-                    h["fqn"].split("::")[-1], r["verdict"], r["wall_s"], st.get("sat_vars"),
+                    "::".join(h["fqn"].split("::")[-2:]), r["verdict"], r["wall_s"], st.get("sat_vars"),
                     st.get("symex_steps"), "; ".join(r["notes"])[:200]))
 
         # ---- failures: playback/replay, known findings
@@ -181,7 +186,7 @@ def main():
             if kf:
                 known_hits.append((kf[0], r))
             else:
-                path = os.path.join(VERIF, "evidence", "replay", "%s-%s.json" % (pid, h["fqn"].split("::")[-1]))
+                path = os.path.join(VERIF, "evidence", "replay", "%s-%s.json" % (pid, h["fn"].replace("::", ".")))
                 json.dump({"property": pid, "harness": h["fqn"], "key": key,
                            "failed_checks": mine, "replay": rp, "what": h.get("what")},
                           open(path, "w"), indent=1)
@@ -258,7 +263,7 @@ def main():
                 if r.get("log") and os.path.exists(r["log"]):
                     # keep the tail only (logs are large)
                     txt = open(r["log"], errors="replace").read()
-                    open(os.path.join(keep, os.path.basename(r["log"])), "w").write(txt[-200000:])
+                    open(os.path.join(keep, os.path.basename(r["log"])), "w").write(txt if len(txt) < 300000 else txt[:100000] + "\n[...]\n" + txt[-200000:])
             return 2
         return 0
     finally:
